@@ -49,6 +49,7 @@ pub fn run(run: &RunInfo) -> Summary {
                 delay_ms: 0,
                 focus19: true,
                 rearm_dangling: false,
+            faults: false,
             }
         } else {
             HistParams {
@@ -64,6 +65,7 @@ pub fn run(run: &RunInfo) -> Summary {
                 delay_ms: slow,
                 focus19: true,
                 rearm_dangling: false,
+            faults: false,
             }
         };
         let st = dbx::explore(if noisy { 1 } else { 0 }, 200_000_000, |ctx| {
@@ -102,6 +104,7 @@ pub fn run(run: &RunInfo) -> Summary {
                 delay_ms: 0,
                 focus19: true,
                 rearm_dangling: true,
+            faults: false,
             };
             dbx::explore(0, 50_000_000, |ctx| {
                 let o = history(ctx, &p, Some(first), acc);
@@ -137,6 +140,7 @@ pub fn run(run: &RunInfo) -> Summary {
                     delay_ms: 0,
                     focus19: true,
                     rearm_dangling: false,
+            faults: false,
                 };
                 dbx::explore(0, 1_000_000, |ctx| {
                     let o = history(ctx, &p, Some(0), acc);
@@ -171,6 +175,7 @@ pub fn run(run: &RunInfo) -> Summary {
                     delay_ms: 0,
                     focus19: true,
                     rearm_dangling: false,
+            faults: false,
                 };
                 let (levels, states, transitions, fix) = bfs(&p, 12, &format!("c19/max={max}/dangling={dangling:?}"), |o| &o.c19, &mut acc);
                 acc.count("bfs_states", states as u64);
